@@ -1,7 +1,7 @@
 """Import family: C14 (header import leaves the stores equal to the file, or
 consistent on failure), plus the import crash points of C08 reported as extra
 clauses ("ImportCrash*") of the same check."""
-import json, os, random, shutil, time
+import json, os, random, resource, shutil, time
 from .. import core, family
 
 SPEC = os.path.join(core.VERIF, "specs", "Import")
@@ -113,6 +113,61 @@ def label(act):
     return s + "=" + str(act.get("res"))
 
 
+class LeanGraph(core.Graph):
+    """core.Graph with act/obs kept as compact JSON strings (obs interned): the thorough graph has a
+    million edges whose labels carry the whole configuration; as dicts they need ~5 GB."""
+
+    @classmethod
+    def load(cls, run):
+        g = cls()
+        pool = {}
+
+        def intern(o):
+            t = json.dumps(o, separators=(",", ":"))
+            return pool.setdefault(t, t)
+
+        for line in open(run.inits_path):
+            d = json.loads(line)
+            g.inits.append((g.node(d["init"]), intern(d["obs"])))
+        seen = set()
+        g.ops = {}
+        for line in open(run.edges_path):
+            d = json.loads(line)
+            f, t = g.node(d["from"]), g.node(d["to"])
+            a = json.dumps(d["act"], sort_keys=True, separators=(",", ":"))
+            key = (f, a, t)
+            if key in seen:
+                continue
+            seen.add(key)
+            g.out[f].append(len(g.edges))
+            g.edges.append((f, a, t, intern(d["obs"]), tuple(d.get("viol", []))))
+            k = "%s/%s" % (d["act"]["op"], d["act"]["res"])
+            g.ops[k] = g.ops.get(k, 0) + 1
+        return g
+
+
+def write_chunks(g, paths, sc, chunk):
+    """Writes the paths (global ids) into files of at most `chunk` paths."""
+    init_obs = {n: o for n, o in g.inits}
+    files, f = [], None
+    for i, p in enumerate(paths):
+        if i % chunk == 0:
+            if f:
+                f.close()
+            files.append(os.path.join(sc, "paths-%d.ndjson" % len(files)))
+            f = open(files[-1], "w")
+        start = g.edges[p[0]][0]
+        steps = ",".join('{"act":%s,"obs":%s,"viol":%s}' % (g.edges[e][1], g.edges[e][3], json.dumps(list(g.edges[e][4])))
+                         for e in p)
+        f.write('{"id":%d,"init_obs":%s,"steps":[%s]}\n' % (i, init_obs.get(start, "null"), steps))
+    if f:
+        f.close()
+    return files
+
+
+CHUNK = 20000   # paths per driver run / ObsCheck run (bounds the memory of the check, not its coverage)
+
+
 def run(prop_id, tier, seed, replay=None):
     t0 = time.time()
     rng = random.Random(seed)
@@ -120,34 +175,57 @@ def run(prop_id, tier, seed, replay=None):
     consts.update(CODE_VERSION)
     sc = core.scratch("imp")
     try:
-        pf = os.path.join(sc, "paths.ndjson")
         if replay:
+            pf = os.path.join(sc, "paths.ndjson")
             family.paths_from_replay(replay, pf)
-            tlc, g, paths, unreach = family._NoTLC(), None, [0], 0
+            tlc, g, paths, unreach, files = family._NoTLC(), None, [0], 0, [pf]
         else:
             tlc = core.run_tlc([SPEC], "Import", consts, workers=1, invariants=["TypeOK"],
                                workdir=os.path.join(sc, "tlc"), timeout=3000)
             if not tlc.ok:
                 raise core.MachineryError("TLC on Import failed: %s\n%s" % (tlc.error, tlc.stdout_tail[-3000:]))
-            g = core.Graph.load(tlc)
+            g = LeanGraph.load(tlc)
             paths, unreach = core.edge_cover(g, rng)
-            core.write_paths(g, paths, pf)
+            files = write_chunks(g, paths, sc, CHUNK)
+            shutil.rmtree(os.path.join(sc, "tlc"), ignore_errors=True)
         binary = family.build_overlay_test(PKG, [DRIVER], os.path.join(sc, "chainimport.test"),
                                            extra_overlay={HOOK_AT: HOOK, CKHOOK_AT: CKHOOK})
-        observed, log = family.run_driver(binary, "TestVerifImportReplay", pf,
-                                          os.path.join(sc, "obs.ndjson"), sc,
-                                          env_extra={"VERIF_SEED": str(seed)})
-        verdict = family.judge([SPEC], "ImportProps", PROPS[prop_id], prop_id, observed, label=label)
-        dr = family.drift(pf, observed, label=label)
+        verdict = {"violations": [], "known": {}, "n_lines": 0, "wall": 0.0, "raw": 0}
+        dr = [0, 0, []]
+        slim = []      # what finish() needs of the observed traces, without their observations
+        for k, pf in enumerate(files):
+            of = os.path.join(sc, "obs-%d.ndjson" % k)
+            observed, log = family.run_driver(binary, "TestVerifImportReplay", pf, of, sc,
+                                              env_extra={"VERIF_SEED": str(seed)})
+            v = family.judge([SPEC], "ImportProps", PROPS[prop_id], prop_id, observed, label=label)
+            verdict["violations"] += v["violations"]
+            for kid, kv in v["known"].items():
+                if kid in verdict["known"]:
+                    verdict["known"][kid]["count"] += kv["count"]
+                else:
+                    verdict["known"][kid] = kv
+            verdict["n_lines"] += v["n_lines"]
+            verdict["wall"] += v["wall"]
+            verdict["raw"] += v["raw"]
+            d = family.drift(pf, observed, label=label)
+            dr[0] += d[0]
+            dr[1] += d[1]
+            dr[2] = (dr[2] + d[2])[:5]
+            for t in observed:
+                keep = len(slim) < 3 or t.get("error")
+                slim.append({"id": t["id"], "error": t.get("error"), "init_obs": t.get("init_obs") if keep else None,
+                             "steps": t["steps"] if keep else [None] * len(t["steps"])})
+            del observed
+            os.remove(of)
+            os.remove(pf)
         extra = {"config": consts, "edges_only_reachable_through_model_violation": unreach,
-                 "configurations": tlc.n_inits if hasattr(tlc, "n_inits") else 0}
+                 "configurations": tlc.n_inits if hasattr(tlc, "n_inits") else 0,
+                 "replay_chunks": len(files),
+                 "check_process_maxrss_mb": resource.getrusage(resource.RUSAGE_SELF).ru_maxrss // 1024,
+                 "children_maxrss_mb": resource.getrusage(resource.RUSAGE_CHILDREN).ru_maxrss // 1024}
         if g is not None:
-            ops = {}
-            for e in g.edges:
-                k = "%s/%s" % (e[1]["op"], e[1]["res"])
-                ops[k] = ops.get(k, 0) + 1
-            extra["model_edges_by_action"] = ops
-        return family.finish(prop_id, tier, seed, t0, tlc, g, paths, observed, verdict, dr, extra,
+            extra["model_edges_by_action"] = g.ops
+        return family.finish(prop_id, tier, seed, t0, tlc, g, paths, slim, verdict, tuple(dr), extra,
                              ASSUMPTIONS, label=label)
     finally:
         shutil.rmtree(sc, ignore_errors=True)
